@@ -9,6 +9,7 @@ TITLE = "Scale selection is non-saturating, full-range and local to its axis/gro
 
 RULES = {
     "C03.R1": "reduction dims: for every range function, the dim of amax/amin folded for ndim 1..4 x axis {0,-1} is range(ndim) minus the kept axis; keepdim=True; axis None reduces everything",
+    "C03.R8": "calibrated scales have the dtype of the source: nothing on the way from the measured tensor to the scale buffer converts to a fixed dtype (float(), to(torch.float32), dtype=...) without converting back to the dtype of a tensor",
     "C03.R7": "calibrated activation scales: the calibration hooks measure the module's float input and raw output with absmax_scale(x, module.activation_qtype) (the rules C12.R3/R4), so the divisor is the maximum of the qtype in force",
     "C03.R2": "symmetric ranges reduce |base|; affine ranges take amin and amax over the same dims of the same (grouped) tensor",
     "C03.R3": "divisor = clamp bound: the symmetric scale divides by the maximum of the storage range of every qtype that can reach it; the affine scale divides by 2**bits - 1",
@@ -249,6 +250,7 @@ def run(chk):
         from ..report import AliasedCheck
         from . import c12
         c12.run(AliasedCheck(chk, {"C12.R3": "C03.R7", "C12.R4": "C03.R7"}))
+        calibrated_scale_dtype(chk)
     grouping_condition(chk, "C03.R5")
     chk.require("C03.R5", f"{repo.cls('AffineQuantizer').mod.rel}:{aq.lineno}", len(grp_calls) == 1 and len(grp_calls2) == 1 and norm(grp_calls[0]) == norm(grp_calls2[0]), f"quantizer groups with `{grp_calls}`, optimizer wrapper with `{grp_calls2}`", "AffineQuantizer.forward", "same grouping call", "grouped weights: scale layout and code layout disagree")
     # ---------------- R6
@@ -303,3 +305,55 @@ def grouping_condition(chk, rule):
             chk.require(rule, f"{ci.mod.rel}:{p.end[2]}", ok, f"{qn} [{conds}]: group_size is None = {none}, tensor grouped = {grouped}", qn, "grouping applied iff a group size is given",
                         "a group size for which one side skips the grouping (e.g. a group spanning the whole axis of a rank-3/4 weight): scales of shape (N,1,1) meet codes of shape (N*G, g) - wrong values or a tensor that cannot be dequantized")
         chk.floor(rule, n, 2, f"{qn} accepting paths")
+
+
+_FIXED_DTYPE_METHODS = {"float", "double", "half", "bfloat16"}
+
+
+def _dtype_conversions(repo, mod, e, depth=0, seen=None):
+    """Texts of the conversions to a FIXED dtype met in an expression and in the returns of the package functions it calls."""
+    from ..core import paths_of as _paths
+    seen = set() if seen is None else seen
+    out = []
+    for nd in ast.walk(e):
+        if not isinstance(nd, ast.Call):
+            continue
+        f = nd.func
+        if isinstance(f, ast.Attribute) and f.attr in _FIXED_DTYPE_METHODS and not nd.args:
+            out.append(U(nd)[-40:])
+        elif isinstance(f, ast.Attribute) and f.attr in ("to", "type") and any(U(a).startswith("torch.") for a in nd.args):
+            out.append(U(nd)[-40:])
+        for k in nd.keywords:
+            if k.arg == "dtype" and U(k.value).startswith("torch."):
+                out.append(f"{U(f)}(dtype={U(k.value)})")
+        if isinstance(f, ast.Name) and depth < 4:
+            r = repo.resolve(mod, f.id)
+            if r is not None and isinstance(r[1], ast.FunctionDef) and id(r[1]) not in seen:
+                seen.add(id(r[1]))
+                for p in _paths(r[1]):
+                    if p.end[0] == "return" and p.end[1] is not None:
+                        out += _dtype_conversions(repo, r[0], p.end[1], depth + 1, seen)
+    return out
+
+
+def calibrated_scale_dtype(chk):
+    repo = chk.repo
+    names = ("input_scale", "output_scale")
+    n = 0
+    ci = repo.cls("Calibration")
+    for fname in ("calibrate_input", "calibrate_output"):
+        fn = ci.own(fname)
+        if fn is None:
+            continue
+        seen = set()
+        for p in paths_of(fn):
+            for ef in p.effects:
+                if ef[0] == "store" and ef[2] in names and (ef[4], U(ef[3])) not in seen:
+                    seen.add((ef[4], U(ef[3])))
+                    n += 1
+                    val = ef[3]
+                    back = isinstance(val, ast.Call) and isinstance(val.func, ast.Attribute) and val.func.attr in ("to", "type") and val.args and U(val.args[0]).endswith(".dtype")
+                    conv = _dtype_conversions(repo, ci.mod, val)
+                    chk.require("C03.R8", f"{ci.mod.rel}:{ef[4]}", back or not conv, f"{fname}: `module.{ef[2]} = {U(val)[:60]}` keeps the dtype of the measured tensor (fixed-dtype conversions on the way: {sorted(set(conv))[:3]})", f"Calibration.{fname}", f"calibrated {ef[2]} converted to a fixed dtype",
+                                "a float16 / bfloat16 model calibrated on two batches or more: the scale buffers become float32 and the module emits float32-typed quantized activations")
+    chk.floor("C03.R8", n, 3, "stores of calibrated scales")
